@@ -93,6 +93,25 @@ def run(check, tier, seed, scratch):
     u4 = Universe(U4s)
     run_trace_leg(check, scratch, 'partial', alggen.chain(partial_events(u, U, 2, sample=0.6 if quick else 1.0, seed=seed),
                                                           partial_events(u4, U4s, 1, sample=0.5, seed=seed + 1), cexgen), WANT)
+    # discovery THROUGH partial objects: "positionals resolve callee parameters, keywords do not" -- forwarding wrappers whose callee is a
+    # parameter bound by the partial (auto_param) or a defaulted parameter the partial does not bind (auto_param_default), executed
+    from . import c04
+    U2 = tlc.export_universe(scratch, 'ab', ['args'], ['kwargs'], 2)
+    UO = [ps for ps in U2 if alggen.has_star(ps)]
+    UI = [c04.rename(ps, {'a': 'x', 'b': 'y'}) for ps in U2]
+
+    def through_partial(shard, nshards):
+        r2 = random.Random(seed + 31)
+        for k in range(3000 if quick else 80000):
+            a, b = r2.randrange(len(UO)), r2.randrange(len(UI))
+            fl = dict(c04.written_flags(UO[a], UI[b], r2), partial=False)
+            placement = ['auto_param', 'auto_param_default'][k % 2]
+            if k % nshards == shard:
+                yield c04.prog_event('viapartial/%d-%s' % (k, placement), UO[a], UI[b], fl, placement)
+
+    def classify_exec(tid, clause, case):
+        return 'C19_DiscoveryThroughPartial:' + clause if clause[:3] in ('C04', 'C06', 'C07') else clause
+    run_trace_leg(check, scratch, 'discovery-through-partial', through_partial, None, module='Trace_Exec', describe=c04.describe, classify=classify_exec)
     check.cov['exhaustive'] = not quick
     check.cov['rule'] = ('every function of the %d-signature universe x bound positional count 0..len+1 x bound keyword subsets (<=2, incl. a foreign name) x '
                          '{signatures.signature, sigtools.signature, nested partial}%s; each partial object really called on the complete call set; '
